@@ -116,7 +116,9 @@ func (e *Engine) VerifyFunction(fn *ssa.Function, c *Contract) (res *FnCtx) {
 		provedLemma[ap.Lemma] = true
 		ax := e.lemmaByName(ap.Lemma)
 		if ax == nil {
-			fc.unsupported("apply: unknown lemma %s", ap.Lemma)
+			if e.axiomByName(ap.Lemma) == nil {
+				fc.unsupported("apply: unknown lemma %s", ap.Lemma)
+			}
 			continue
 		}
 		env := fr.specEnv(st, st, nil, nil)
